@@ -55,6 +55,13 @@ CLAIMED["C03"] = ("Bounded symbolic model checking of key dispatch against a ref
  "Trusted: gosx, the 30-line reference resolver, paint stubs, terminal stub. Main keymap emacs only; macro bindings are not in the symbolic tables; only the first resolution is compared.",
  "symbolic execution of the real SSA (Readline loop, symbolic bind tables) + SMT (z3) equivalence with a reference resolver", "DESIGN.md §5 C03")
 
+CLAIMED["C14"] = ("Bounded symbolic model checking of completion locality through the real Readline loop with the display engine unstubbed: symbolic buffer and cursor, an application completer offering candidates that extend the word before the cursor, TAB typed k times and optionally Ctrl-C; after each TAB the buffer must be prefix + candidate + text after the cursor with the cursor after the candidate; after Ctrl-C buffer and cursor are restored and Readline still waits.",
+ "Trusted: gosx, terminal stub, the independent word-start reference. Candidate sets are prefix-consistent; suffix matchers, descriptions and case-insensitive matching are not varied.",
+ "symbolic execution of the real SSA (Readline loop incl. completion engine and display) + SMT (z3) locality assertions", "DESIGN.md §5 C14")
+CLAIMED["C15"] = ("Bounded symbolic model checking of menu cycling through the real Readline loop with the display engine unstubbed and a symbolic terminal size: for candidate sets of several sizes and structures (plain, described, shared descriptions, two tags) menu-complete / menu-complete-backward are invoked n+1 times; each path (a class of terminal sizes giving one grid shape) must show every candidate exactly once and then the first again.",
+ "Trusted: gosx, terminal stub (symbolic winsize), native uniseg width on concrete candidate text.",
+ "symbolic execution of the real SSA (completion grid arithmetic over a symbolic terminal size) + SMT (z3) path decisions, exactly-once assertions", "DESIGN.md §5 C15")
+
 PENDING = {}
 
 NA = {
